@@ -16,7 +16,8 @@ from fpv.engine import matches_known
 from fpv.common import load_known
 
 THEOREMS = ["FP.Props.C19." + t for t in
-            ["no_unmapped_guard", "expected_guarded", "invalid_rejected", "valid_accepted", "violation_never_ok"]] + \
+            ["no_unmapped_guard", "expected_guarded", "support_guarded", "invalid_rejected", "support_rejected", "valid_accepted",
+             "violation_never_ok"]] + \
            ["FP.GuardEval." + t for t in ["outcome_ok", "outcome_valueError", "outcome_not_ok_of_violation"]]
 IMPORTS = ["FP.Props.C19"]
 RULE = ("per model class: the valid base input (edge and node mode), every single violation of k4inputs.variants "
